@@ -39,7 +39,7 @@ func plans() map[string][]streamPlan {
 		"C06": {{"fnpaths", 25000, 500000}, {"api", 1500, 40000}, {"expr", 5000, 100000}},
 		"C07": {{"truth", truthCount(), truthCount()}, {"truth-nest", 10000, 500000}},
 		"C08": {{"slice", sliceCount(6), sliceCount(9)}, {"slice-big", sliceBigCount() + 5000, sliceBigCount() + 300000}, {"typed", 3000, 60000}},
-		"C09": {{"fn", 40000, 800000}, {"expr", 5000, 100000}, {"edge", edgeCount(), edgeCount()}},
+		"C09": {{"fn", 40000, 800000}, {"expr", 5000, 100000}, {"edge", edgeCount(), edgeCount()}, {"fnseq", 6000, 100000}},
 		"C10": {{"fnmatrix", matrixCount(3), matrixCount(4)}, {"fnseq", 15000, 300000}, {"expr", 5000, 100000}},
 		"C11": {{"errctx", errCtxCount(true), errCtxCount(true)}, {"expr", 8000, 300000}, {"proj", 4000, 100000}},
 		"C13": {{"api", 3000, 120000}, {"expr", 4000, 100000}},
